@@ -8,6 +8,7 @@ import (
 
 	"github.com/pdok/texel/morton"
 	"github.com/pdok/texel/pointindex"
+	"github.com/pdok/texel/tms20"
 )
 
 func init() { props["C17"] = runC17 }
@@ -177,7 +178,60 @@ func runC17(c *hc.Ctx) error {
 		}
 		c.Case(fmt.Sprintf("QuadCase %s %s", hc.CoqN(z), obs), map[string]any{"op": "getQuadrantZs", "z": z, "keys": keys, "panic": panicked})
 	}
+	// the per-level maps of the point index are keyed by MustToZ: on a grid with more than 32 levels (WebMercatorQuad
+	// tile matrix 21 and deeper) an in-grid pixel whose deepest address needs 33 bits must be REPORTED (panic
+	// "cannot make Z out of ..."), never stored under the key of another pixel
+	if t, err := tms20.LoadEmbeddedTileMatrixSet("WebMercatorQuad"); err == nil {
+		for _, id := range []int{21, 22} {
+			ix, err := pointindex.FromTileMatrixSet(t, id)
+			if err != nil {
+				continue
+			}
+			_, _, deep := pointindex.VerifGrid(ix)
+			if deep <= 32 {
+				continue
+			}
+			size := uint64(1) << uint(deep)
+			for k := 0; k < c.N(40, 2000); k++ {
+				x, y := uint64(c.Rng.Int63n(int64(size))), uint64(c.Rng.Int63n(int64(size)))
+				switch k % 4 {
+				case 0:
+					x = 1<<32 + uint64(c.Rng.Intn(1<<16))
+					y = uint64(c.Rng.Intn(1 << 16))
+				case 1:
+					y = 1<<32 + uint64(c.Rng.Intn(1<<16))
+				}
+				wide := x >= 1<<32 || y >= 1<<32
+				c.Sum.Evaluations++
+				c.Count("InsertCoord on a grid deeper than level 32")
+				c.Nontrivial(fmt.Sprintf("ic%d,%d,%d", id, x, y))
+				panicked, msg := insertCoordPanics(t, id, int(x), int(y))
+				if wide && !panicked {
+					c.Violate(hc.Violation{What: "a pixel address that does not fit in 32 bits is stored in the point index without being reported (silently aliased)", Input: map[string]any{"set": "WebMercatorQuad", "tile_matrix": id, "level": deep, "x": x, "y": y}, Observed: "InsertCoord returned normally"})
+				}
+				if !wide && panicked {
+					c.Violate(hc.Violation{What: "InsertCoord panics on an in-grid pixel whose address fits in 32 bits", Input: map[string]any{"set": "WebMercatorQuad", "tile_matrix": id, "x": x, "y": y}, Observed: msg})
+				}
+			}
+		}
+	}
 	return nil
+}
+
+func insertCoordPanics(t tms20.TileMatrixSet, id int, x, y int) (panicked bool, msg string) {
+	defer func() {
+		if r := recover(); r != nil {
+			panicked, msg = true, fmt.Sprint(r)
+		}
+	}()
+	ix, err := pointindex.FromTileMatrixSet(t, id)
+	if err != nil {
+		return false, ""
+	}
+	if err := ix.InsertCoord(x, y); err != nil {
+		return true, "error: " + err.Error() // reported as outside the grid: also "reported"
+	}
+	return false, ""
 }
 
 func quadrantZs(z uint64) (keys []uint64, panicked bool) {
